@@ -10,6 +10,7 @@ import Earverif.Proofs.C02RenderTS
 import Earverif.Proofs.C02OverlapSave
 import Earverif.Proofs.C02Trace
 import Earverif.Proofs.C03Linear
+import Earverif.Proofs.C03LinearTS
 namespace Earverif.Timeline
 open Earverif.Stream Earverif.RenderSpec
 
@@ -172,13 +173,15 @@ decorrelation filter: in particular the diffuse term of every output sample is `
 with its group delay compensated (`C03_diffuse_group_delay`), although the code computes it block-wise by circular
 convolutions of length `2·block_size` behind a `block_size` adapter delay. -/
 theorem C03_render_formula_os (c : Cfg V) (objs : List (ObjItem V)) (dss : List (DsItem V)) (hoas : List (HoaItem V))
-    (hok : SessionWF c objs dss hoas) (parts : List (List (List Rat))) (_hin : InputOK c parts.flatten) :
+    (hok : SessionWF c objs dss hoas) (parts : List (List (List Rat))) :
     ∃ out, renderAllOS c objs dss hoas parts = .ok out ∧ out.length = parts.flatten.length ∧
       ∀ s, s < parts.flatten.length → out[s]? =
         some ((((objAt c.sr objs parts.flatten s).1 + specDiffuse c objs parts.flatten s) +
           dsPart c dss parts.flatten s) + hoaPart c hoas parts.flatten s) := by
-  rw [renderAllOS_eq c hok.ok.block_size_pos hok.taps_ne]
-  exact C03_render_formula c objs dss hoas hok.ok parts
+  refine ⟨_, render_refines_spec_os_ok c objs dss hoas hok.ok hok.taps_ne hok.index parts, by simp [RenderSpec.out], ?_⟩
+  intro s hs
+  simp only [RenderSpec.out, List.getElem?_map, List.getElem?_range hs, Option.map_some]
+  rfl
 
 /-! #### linear in the input audio -/
 
@@ -220,7 +223,8 @@ theorem out_smul (c : Cfg V) (objs : List (ObjItem V)) (dss : List (DsItem V)) (
   exact outAt_smul c objs dss hoas a x s
 
 /-- **`C03_linear_in_input`** — "the output is the exact sum over items, linear in the input audio", for the renderer
-model with the overlap-save convolver and ANY blockings: with the same items, rendering the sum of two inputs of the
+model with the overlap-save convolver and ANY blockings (items reading one input track each; items with track specs:
+`C03_linear_in_input_ts`): with the same items, rendering the sum of two inputs of the
 same shape (in any blocking) gives the frame-wise sum of the two renderings (each in any blocking), and rendering `a·x`
 gives `a` times the rendering of `x`.  (From `outAt_add`/`outAt_smul` on the specification through
 `render_refines_spec_os`.) -/
@@ -231,11 +235,10 @@ theorem C03_linear_in_input (c : Cfg V) (objs : List (ObjItem V)) (dss : List (D
     ∃ ox oy, renderAllOS c objs dss hoas px = .ok ox ∧ renderAllOS c objs dss hoas py = .ok oy ∧
       renderAllOS c objs dss hoas pxy = .ok (List.zipWith (· + ·) ox oy) ∧
       renderAllOS c objs dss hoas pa = .ok (ox.map (RMod.smul a)) := by
-  obtain ⟨hx, hy, hxy⟩ := inputOK_of_shape c _ _ hshape
-  refine ⟨_, _, render_refines_spec_os c objs dss hoas hok px hx, render_refines_spec_os c objs dss hoas hok py hy,
-    ?_, ?_⟩
-  · rw [render_refines_spec_os c objs dss hoas hok pxy (hsum ▸ hxy), hsum, out_add c objs dss hoas _ _ hshape]
-  · rw [render_refines_spec_os c objs dss hoas hok pa (hscale ▸ inputOK_smulX c a _ hx), hscale, out_smul]
+  have hr := render_refines_spec_os_ok c objs dss hoas hok.ok hok.taps_ne hok.index
+  refine ⟨_, _, hr px, hr py, ?_, ?_⟩
+  · rw [hr pxy, hsum, out_add c objs dss hoas _ _ hshape]
+  · rw [hr pa, hscale, out_smul]
 
 omit [LawfulRMod V] in
 /-- **`C03_direct_zero_latency`** — the direct part of Objects, the DirectSpeakers part and the HOA part of output
@@ -358,17 +361,48 @@ open Earverif.Renderer in
 three taps). -/
 theorem exSession_wf : SessionWF exCfg exObjs exDss [] where
   ok := exSession_ok
-  index := ⟨by decide, by decide, (by intro it hit; cases hit), (by intro it hit; cases hit)⟩
+  index := ⟨by decide, by decide, (by intro it hit; cases hit), (by intro it hit; cases hit),
+    (by intro it hit; cases hit)⟩
   taps_ne := by decide
 
 open Earverif.Renderer in
-/-- The same session through the model with the overlap-save convolver: an instance of `render_refines_spec_os` /
-`C03_render_formula_os` (the 14 one-sample frames satisfy `InputOK`). -/
+/-- The same session through the model with the overlap-save convolver: an instance of `render_refines_spec_os_ok` /
+`C03_render_formula_os`. -/
 example : renderAllOS exCfg exObjs exDss []
       [[[1], [2], [3]], [], [[4]], [[5], [6], [7], [8], [9], [10], [11], [12], [13], [14]]] =
     .ok (RenderSpec.out exCfg exObjs exDss []
       [[1], [2], [3], [4], [5], [6], [7], [8], [9], [10], [11], [12], [13], [14]]) :=
-  render_refines_spec_os exCfg exObjs exDss [] exSession_wf _ (by unfold InputOK; decide)
+  render_refines_spec_os_ok exCfg exObjs exDss [] exSession_wf.ok exSession_wf.taps_ne exSession_wf.index _
+
+open Earverif.Renderer in
+/-- The exception branches of `renderAllOS` (kernel-evaluated): a track outside the 1-channel input raises `IndexError`
+on the first call; an HOA item without tracks raises the `np.stack` `ValueError`; a decode matrix with two columns for
+an item with one track raises the `np.dot` `ValueError`. -/
+example : renderAllOS exCfg [⟨1, exObjBlocks⟩] exDss [] [[[1], [2]]] = .error .trackIndex := by decide +kernel
+open Earverif.Renderer in
+example : renderAllOS exCfg exObjs exDss [⟨[], [⟨none, none, none, none, false, none, []⟩]⟩] [[[1], [2]]] =
+    .error .emptyStack := by decide +kernel
+open Earverif.Renderer in
+example : renderAllOS exCfg exObjs exDss [⟨[0], [⟨none, none, none, none, false, none, [1, 2]⟩]⟩] [[[1], [2]]] =
+    .error .dotShape := by decide +kernel
+
+/-- An HOA item whose SECOND decode matrix (from sample 2 on) is mis-shaped, followed by an item with a track outside
+the input. -/
+def exBadHoas : List (Earverif.Renderer.HoaItem Rat) :=
+  [⟨[0], [⟨none, none, some 0, some (1/5), false, none, [1]⟩, ⟨none, none, some (1/5), some 1, false, none, [1, 2]⟩]⟩,
+   ⟨[1], [⟨none, none, none, none, false, none, [1]⟩]⟩]
+
+open Earverif.Renderer in
+/-- WHICH numpy exception such a session raises depends on the blocking (why `C02_block_independent_os_of_ok` compares
+returned audio only): with a first call of one frame the second item's `IndexError` comes first; with a first call of
+three frames the first item reaches its second matrix in that call and `np.dot` raises first.  A mis-shaped matrix that
+is never reached (input and tail end before it becomes current) raises nothing. -/
+example : renderAllOS exCfg [] [] exBadHoas [[[1]], [[2], [3]]] = .error .trackIndex ∧
+    renderAllOS exCfg [] [] exBadHoas [[[1], [2], [3]]] = .error .dotShape := by decide +kernel
+open Earverif.Renderer in
+example : (renderAllOS exCfg [] []
+    [⟨[0], [⟨none, none, some 0, some 1, false, none, [1]⟩, ⟨none, none, some 1, some 1, false, none, [1, 2]⟩]⟩]
+    [[[1]], [[2], [3]]]).toBool = true := by decide +kernel
 
 open Earverif.Renderer in
 /-- Non-vacuity of `C03_linear_in_input`: two inputs of shape `(3, 1)`, their sum and a multiple. -/
@@ -406,14 +440,33 @@ theorem C03_render_formula_ts (c : Cfg V) (objs : List (ObjItemTS V)) (dss : Lis
 /-- **`C03_render_formula_ts_os`** — `C03_render_formula_ts` for the renderer with track processors AND the partitioned
 overlap-save convolver (`renderAllTSOS`), for a non-empty decorrelation filter. -/
 theorem C03_render_formula_ts_os (c : Cfg V) (objs : List (ObjItemTS V)) (dss : List (DsItemTS V))
-    (hoas : List (HoaItemTS V)) (hok : SessionWFTS c objs dss hoas) (parts : List (List (List Rat)))
-    (_hin : InputOK c parts.flatten) :
+    (hoas : List (HoaItemTS V)) (hok : SessionWFTS c objs dss hoas) (parts : List (List (List Rat))) :
     ∃ out, renderAllTSOS c objs dss hoas parts = .ok out ∧ out.length = parts.flatten.length ∧
       ∀ s, s < parts.flatten.length → out[s]? =
         some ((((objAtTS c objs parts.flatten s).1 + diffuseAtTS c objs parts.flatten s) +
           dsAtTS c dss parts.flatten s) + hoaAtTS c hoas parts.flatten s) := by
-  rw [renderAllTSOS_eq c hok.ok.block_size_pos hok.taps_ne]
-  exact C03_render_formula_ts c objs dss hoas hok.ok parts
+  refine ⟨_, render_eq_outTS_os_ok c objs dss hoas hok.ok hok.taps_ne hok.hoa_gains parts, by simp [outTS], ?_⟩
+  intro s hs
+  simp only [outTS, List.getElem?_map, List.getElem?_range hs, Option.map_some]
+  rfl
+
+/-- **`C03_linear_in_input_ts`** — "the output is the exact sum over items, linear in the input audio" for items with
+TRACK SPECS (direct, silent, mix, gain, matrix coefficient with gain and delay, nested), for the renderer model with the
+track processors, the overlap-save convolver and ANY blockings: rendering the sum of two inputs of the same shape (in any
+blocking) gives the frame-wise sum of the two renderings (each in any blocking), and rendering `a·x` gives `a` times the
+rendering of `x`.  (From the linearity of C20's literal meaning — `TrackSpec.meaning_add` / `meaning_smul`, hence of
+every item stream `sAt` and of the specification `outAtTS` — through `render_eq_outTS_os`.) -/
+theorem C03_linear_in_input_ts (c : Cfg V) (objs : List (ObjItemTS V)) (dss : List (DsItemTS V))
+    (hoas : List (HoaItemTS V)) (hok : SessionWFTS c objs dss hoas) (px py pxy pa : List (List (List Rat))) (a : Rat)
+    (hshape : SameShape c.n_in px.flatten py.flatten) (hsum : pxy.flatten = addX px.flatten py.flatten)
+    (hscale : pa.flatten = smulX a px.flatten) :
+    ∃ ox oy, renderAllTSOS c objs dss hoas px = .ok ox ∧ renderAllTSOS c objs dss hoas py = .ok oy ∧
+      renderAllTSOS c objs dss hoas pxy = .ok (List.zipWith (· + ·) ox oy) ∧
+      renderAllTSOS c objs dss hoas pa = .ok (ox.map (RMod.smul a)) := by
+  have hr := render_eq_outTS_os_ok c objs dss hoas hok.ok hok.taps_ne hok.hoa_gains
+  refine ⟨_, _, hr px, hr py, ?_, ?_⟩
+  · rw [hr pxy, hsum, outTS_add c objs dss hoas _ _ hshape]
+  · rw [hr pa, hscale, outTS_smul]
 
 end
 
@@ -526,11 +579,23 @@ theorem exSessionTS_wf : SessionWFTS exCfgTS exObjsTS exDssTS exHoasTS where
     rfl
   taps_ne := by decide
 
-/-- The same through the model with the overlap-save convolver: an instance of `render_eq_outTS_os` (the 14 two-sample
-frames satisfy `InputOK`). -/
+/-- The same through the model with the overlap-save convolver: an instance of `render_eq_outTS_os_ok`. -/
 example : renderAllTSOS exCfgTS exObjsTS exDssTS exHoasTS [exX.take 3, [], (exX.drop 3).take 1, exX.drop 4] =
     .ok (outTS exCfgTS exObjsTS exDssTS exHoasTS exX) :=
-  render_eq_outTS_os exCfgTS exObjsTS exDssTS exHoasTS exSessionTS_wf _ (by unfold InputOK; decide)
+  render_eq_outTS_os_ok exCfgTS exObjsTS exDssTS exHoasTS exSessionTS_wf.ok exSessionTS_wf.taps_ne
+    exSessionTS_wf.hoa_gains _
+
+/-- The `np.dot` exception with track processors: a decode matrix with one column for an HOA item with two track
+specs. -/
+example : renderAllTSOS exCfgTS exObjsTS exDssTS
+    [⟨[.direct 0, .silent], [⟨none, none, none, none, false, none, [1]⟩]⟩] [exX.take 3, exX.drop 3] =
+    .error .dotShape := by decide +kernel
+
+/-- Non-vacuity of `C03_linear_in_input_ts`: two inputs of shape `(3, 2)`, their sum and a multiple. -/
+example : SameShape exCfgTS.n_in [[1, 0], [2, 1], [3, 0]] [[10, 1], [0, 0], [-5, 2]] ∧
+    addX [[1, 0], [2, 1], [3, 0]] [[10, 1], [0, 0], [-5, 2]] = [[11, 1], [2, 1], [-2, 2]] ∧
+    smulX 3 [[1, 0], [2, 1], [3, 0]] = [[3, 0], [6, 3], [9, 0]] :=
+  ⟨⟨rfl, by decide, by decide⟩, by decide +kernel, by decide +kernel⟩
 
 end Earverif.RendererTS
 
